@@ -40,12 +40,16 @@ def plan(tier, seed):
                           count=20000 if tier == 'thorough' else 500,
                           hashseed=k))
     for k in range(4 if tier == 'quick' else 32):
+        specs.append(dict(kind='fixpoint', sub=k,
+                          rounds=150 if tier == 'quick' else 1500,
+                          hashseed=k))
+    for k in range(4 if tier == 'quick' else 32):
         specs.append(dict(kind='wide', sub=k,
                           rounds=25 if tier == 'quick' else 120,
                           hashseed=k))
     meta = dict(
         rule=RULE,
-        require=['wide_results', 'image_results', 'preimage_results',
+        require=['wide_results', 'fixpoint_results', 'image_results', 'preimage_results',
                  'level_arguments',
                  'calls_with_reordering_due',
                  'autoref_results', 'outside_class_inputs',
@@ -298,6 +302,84 @@ def multi(ctx, spec):
             return
 
 
+def fixpoint(ctx, spec):
+    """Repeated calls with the same relation, renaming, quantified set and
+    quantifier (as in a reachability loop), old results released and
+    collected in between, other functions built so that freed node numbers
+    are re-used: every call is judged against the model."""
+    import dd.bdd as _b
+    import dd.autoref as _a
+    logging.getLogger('dd.bdd').setLevel(logging.ERROR)
+    rng = ctx.rng('fixpoint', spec['sub'])
+    for rnd in range(spec['rounds']):
+        k = rng.randint(1, 2)
+        un = [f'x{i}' for i in range(k)]
+        pr = [f"x{i}'" for i in range(k)]
+        free = ['z']
+        names = un + pr + free
+        sp = Space(names)
+        blocks = [[a, b] if rng.random() < 0.5 else [b, a]
+                  for a, b in zip(un, pr)] + [[z] for z in free]
+        rng.shuffle(blocks)
+        order = [v for b in blocks for v in b]
+        bdd = _b.BDD({v: i for i, v in enumerate(order)})
+        ab = _a.BDD()
+        ab._bdd = bdd
+        ab.vars = bdd.vars
+
+        class A_:
+            pass
+        A = A_()
+        A.bdd = bdd
+        fn = rng.choice(('image', 'preimage'))
+        trans = random_table(rng, sp, kind=0.4 + 0.6 * rng.random())
+        tr_r = build(bdd, trans, sp)
+        bdd.incref(tr_r)
+        if fn == 'preimage':
+            rename = {a: b for a, b in zip(un, pr)}
+            qv = list(pr)
+        else:
+            rename = {b: a for a, b in zip(un, pr)}
+            qv = list(un)
+        fa = rng.random() < 0.3
+        how = rng.randrange(3)
+        cur = sp.exists(random_table(rng, sp, 0.6), pr)
+        for it in range(rng.randint(3, 7)):
+            if not in_class(sp, fn, trans, cur, rename, qv):
+                break
+            st_r = build(bdd, cur, sp)
+            bdd.incref(st_r)
+            got = call(ctx, A, ab, _a, _b, fn, tr_r, st_r, rename, qv, fa,
+                       how)
+            want = model(sp, fn, trans, cur, rename, qv, fa)
+            den = Denoter(bdd, sp)
+            ctx.counters[fn + '_results'] += 1
+            ctx.counters['fixpoint_results'] += 1
+            ctx.case(0 < trans < sp.full, 'fixpoint', fn, tuple(order),
+                     trans, cur, fa, it)
+            if den(got) != want:
+                ctx.violation(
+                    fn, 'wrong-result',
+                    dict(trans=sp.fmt(trans), set=sp.fmt(cur), rename=rename,
+                         qvars=qv, forall=fa, how=how, order=order,
+                         iteration=it, got=sp.fmt(den(got)),
+                         want=sp.fmt(want)))
+                return
+            # release the operand and the (unheld) result, collect, and
+            # let other functions take the freed numbers
+            bdd.decref(st_r)
+            bdd.collect_garbage()
+            junk = [build(bdd, random_table(rng, sp), sp)
+                    for _ in range(rng.randint(0, 3))]
+            del junk
+            # next set: the result joined with some other states (a set
+            # over the unprimed variables)
+            cur = sp.exists(want | random_table(rng, sp, 0.2), pr) \
+                if rng.random() < 0.7 else sp.exists(
+                    random_table(rng, sp, 0.5), pr)
+        bdd.decref(tr_r)
+
+
 def wide(ctx, spec):
     """Many pairs (up to 40): the transition relation toggles a fixed set
     of bits, x_i' <=> (x_i xor m_i), so that the image of a set S is
@@ -395,5 +477,6 @@ def wide(ctx, spec):
 
 
 def run_shard(ctx, spec):
-    fn = dict(one=one, multi=multi, wide=wide)[spec['kind']]
+    fn = dict(one=one, multi=multi, wide=wide,
+              fixpoint=fixpoint)[spec['kind']]
     ctx.guard(spec['kind'], fn, ctx, spec, case=spec)
